@@ -87,6 +87,14 @@ func (f *VerifExpORForger) Steps(bitlen uint) int {
 // Run proves a^b = r (mod n) for the given (true or false) r with exponents of bitlen bits. With step >= 0 that step is
 // replaced by a doubly simulated one. It returns the verifier's verdict.
 func (f *VerifExpORForger) Run(a, b, n, r int64, bitlen uint, step int) bool {
+	return f.RunShifted(a, b, n, r, bitlen, step, false)
+}
+
+// RunShifted is Run; with shiftByOrder the sub-challenge of the simulated branch A is afterwards replaced by
+// A + k*q (q the order of the proof group, in which a sub-challenge only ever acts as an exponent, so the simulated transcript
+// stays valid) with k chosen such that the low 256 bits of (A + k*q) XOR B equal the challenge: a verifier that compares the
+// split only on the width of the hash is satisfied, one that compares the integers is not.
+func (f *VerifExpORForger) RunShifted(a, b, n, r int64, bitlen uint, step int, shiftByOrder bool) bool {
 	g := f.g
 	aS, bS, nS, rS := newPedersenStructure("a"), newPedersenStructure("b"), newPedersenStructure("n"), newPedersenStructure("r")
 	var list []*big.Int
@@ -136,6 +144,17 @@ func (f *VerifExpORForger) Run(a, b, n, r int64, bitlen uint, step int) bool {
 	nP, rP := nS.buildProof(g, challenge, nC), rS.buildProof(g, challenge, rC)
 	proof := s.buildProof(g, challenge, commit, &secrets)
 	if step >= 0 {
+		if shiftByOrder {
+			mod := new(big.Int).Lsh(big.NewInt(1), 256)
+			target := new(big.Int).Xor(challenge, fake.Bchallenge)
+			target.Mod(target, mod)
+			qinv := new(big.Int).ModInverse(new(big.Int).Mod(g.Order, mod), mod)
+			if qinv != nil {
+				k := new(big.Int).Sub(target, fake.Achallenge)
+				k.Mul(k, qinv).Mod(k, mod)
+				fake.Achallenge = new(big.Int).Add(fake.Achallenge, new(big.Int).Mul(k, g.Order))
+			}
+		}
 		proof.InterStepsProofs[step] = fake
 	}
 
